@@ -1,0 +1,120 @@
+//go:build verif
+
+package bloom
+
+// Contracts for govc (/verif), property C31. Comment-only file: no executable code, not part of the default build.
+//
+// inIdx(b, d, i): "bit index i is one of the indexes the hashers of filter b produce for data content d" — an
+// uninterpreted relation (function of the filter object, whose hashFunc and len(filter) never change after
+// construction, and of the data CONTENT). getBitsIndexes (goroutines + channel, out of reach of the engine) is the
+// trusted link: its result enumerates exactly that set, in any order, every index below 8*len(filter).
+// Lockset: field `filter` stands for the filter content (element accesses go through a read of the field).
+
+/*@
+struct Bloom
+  guarded_by mutex: filter
+  invariant nonempty: len(filter) > 0
+
+spec fn inIdx(b *Bloom, d string, i uint64) bool
+spec fn posOf(r []uint64, i uint64) int
+// idf is the identity on indexes: quantified clauses index through idf(k) so that the solvers get a trigger (idf k) that
+// survives the normalisation of slice-offset arithmetic (without it only one solver proves the loops, in about a minute each)
+spec fn idf(k int) int
+  axiom idf(k) == k
+spec fn bitSet(f []byte, i uint64) bool = (f[idf(i >> 3)] & (uint8(1) << (i & 7))) != 0
+spec fn bitSetP(f []byte, i uint64) bool = (f[i >> 3] & (uint8(1) << (i & 7))) != 0      // the same without the trigger wrapper
+
+func getBytePositionAndBitMask(index uint64) (pos uint64, val byte)
+  mode bv
+  // stated with shift/and (callers then carry no 64-bit divider); lemma shift-is-division below ties it to index/8, index%8
+  ensures byte-position: pos == index >> 3
+  ensures one-bit-mask: val == uint8(1) << (index & 7)
+  ensures mask-not-zero: val != 0
+  assigns nothing
+
+lemma shift-is-division
+  mode bv
+  vars i uint64
+  concl byte-position-is-index-div-8: (i >> 3) == i / 8
+  concl bit-number-is-index-mod-8: (i & 7) == i % 8
+
+func getBitsIndexes(b *Bloom, data []byte) (r []uint64)
+  mode bv
+  trusted
+  requires inv(b)
+  ensures in-range: forall k :: 0 <= k && k < len(r) ==> (r[k] >> 3) < uint64(len(b.filter))
+  ensures sound: forall k :: 0 <= k && k < len(r) ==> inIdx(b, str(data), r[k])
+  // every index of the set occurs in r; posOf(r, i) is the (skolem) position of i in this particular result
+  ensures complete: forall i uint64 :: inIdx(b, str(data), i) ==> (0 <= posOf(r, i) && posOf(r, i) < len(r) && r[idf(posOf(r, i))] == i && r[posOf(r, i)] == i)
+  ensures fresh(r)
+  assigns nothing
+
+func (b *Bloom) Add(data []byte)
+  mode bv
+  requires inv(b)
+  requires data-is-not-the-filter: base(data) != base(b.filter)
+  ensures inv(b)
+  ensures sets-bits: forall i uint64 :: inIdx(b, str(data), i) ==> bitSet(b.filter, i)
+  ensures indexes-in-range: forall i uint64 :: inIdx(b, str(data), i) ==> (i >> 3) < uint64(len(b.filter))
+  ensures only-turns-on: forall j :: 0 <= j && j < len(b.filter) ==> (old(b.filter[idf(j)]) | b.filter[idf(j)]) == b.filter[idf(j)]
+  ensures lock-released: !held(b.mutex) && !heldR(b.mutex)
+  assigns elems(b.filter)
+
+loop 1
+  invariant -1 <= rangeindex && rangeindex < len(res)
+  invariant b.filter == old(b.filter)
+  invariant str(data) == old(str(data))
+  invariant forall k :: 0 <= k && k <= rangeindex ==> bitSet(b.filter, res[idf(k)])
+  invariant forall j :: 0 <= j && j < len(b.filter) ==> (old(b.filter[idf(j)]) | b.filter[idf(j)]) == b.filter[idf(j)]
+  invariant !held(b.mutex) && !heldR(b.mutex)
+
+func (b *Bloom) MayContain(data []byte) (r bool)
+  mode bv
+  requires inv(b)
+  ensures no-false-negative: (forall i uint64 :: inIdx(b, str(data), i) ==> bitSetP(b.filter, i)) ==> r
+  ensures true-means-all-set: r ==> (forall i uint64 :: inIdx(b, str(data), i) ==> bitSet(b.filter, i))
+  assigns nothing
+
+loop 1
+  invariant -1 <= rangeindex && rangeindex < len(res)
+  invariant forall k :: 0 <= k && k <= rangeindex ==> bitSet(b.filter, res[idf(k)])
+
+func (b *Bloom) Clear()
+  mode bv
+  requires inv(b)
+  ensures inv(b)
+  ensures all-zero: forall j :: 0 <= j && j < len(b.filter) ==> b.filter[idf(j)] == 0
+  assigns elems(b.filter)
+
+loop 1
+  invariant 0 <= i && i <= len(b.filter)
+  invariant b.filter == old(b.filter)
+  invariant forall j :: 0 <= j && j < i ==> b.filter[idf(j)] == 0
+
+func NewFilter(size uint, h []hashing.Hasher) (b *Bloom, err error)
+  mode bv
+  requires size-fits-a-slice: size <= 281474976710655
+  ensures accepted-is-usable: err == nil ==> b != nil && fresh(b) && uint64(len(b.filter)) == uint64(size) && len(b.filter) > len(h) && len(h) >= 1 && b.hashFunc == h
+  ensures accepted-is-usable-inv: err == nil ==> inv(b)
+  ensures rejected: err != nil ==> b == nil
+  assigns nothing
+
+// "Once a key has been added the filter reports that it may contain the key until the filter is cleared":
+// Add(d); any further Add(d2); MayContain(d) == true.
+lemma added-key-is-reported
+  mode bv
+  vars b *Bloom, d []byte
+  hyp  inv(b) && base(d) != base(b.filter)
+  call _ = b.Add(d)
+  call r = b.MayContain(d)
+  concl reported: r
+
+lemma added-key-survives-other-adds
+  mode bv
+  vars b *Bloom, d []byte, d2 []byte
+  hyp  inv(b) && base(d) != base(b.filter) && base(d2) != base(b.filter)
+  call _ = b.Add(d)
+  call _ = b.Add(d2)
+  call r = b.MayContain(d)
+  concl reported: r
+@*/
